@@ -57,9 +57,19 @@ def _split_long_branches(
     for branch, type, length in zip(branches, types, pathlengths):
         num_subbranches = 1
         split_branch = [branch]
-        while length > max_branch_len:
+        # The gap between a single-point soma and the first point of a neurite has no
+        # length (see `_compute_pathlengths`). Keep the soma point in the first
+        # subbranch instead of creating a subbranch of length zero.
+        skip = 0
+        if is_single_point_soma and len(branch) > 1:
+            type_of_first, type_of_second = content[np.asarray(branch[:2]) - 1, 1]
+            skip = int(int(type_of_first) == 1 and int(type_of_second) != 1)
+        splittable = branch[skip:]
+        # A subbranch needs at least one traced segment, i.e. two traced points.
+        while length > max_branch_len and num_subbranches < len(splittable) - 1:
             num_subbranches += 1
-            split_branch = _split_branch_equally(branch, num_subbranches)
+            split_branch = _split_branch_equally(splittable, num_subbranches)
+            split_branch[0] = list(branch[:skip]) + list(split_branch[0])
             lengths_of_subbranches = _compute_pathlengths(
                 split_branch,
                 coords=content[:, 1:6],
@@ -83,12 +93,14 @@ def _split_long_branches(
 
 
 def _split_branch_equally(branch: np.ndarray, num_subbranches: int) -> List[np.ndarray]:
-    num_points_each = len(branch) // num_subbranches
-    branches = [branch[:num_points_each]]
-    for i in range(1, num_subbranches - 1):
-        branches.append(branch[i * num_points_each - 1 : (i + 1) * num_points_each])
-    branches.append(branch[(num_subbranches - 1) * num_points_each - 1 :])
-    return branches
+    """Split at traced points into parts with (almost) equally many traced segments.
+
+    Neighbouring subbranches share the point at which they are cut and every subbranch
+    contains at least two points. Requires `num_subbranches <= len(branch) - 1`.
+    """
+    num_segments = len(branch) - 1
+    cuts = np.round(np.linspace(0, num_segments, num_subbranches + 1)).astype(int)
+    return [branch[cuts[k] : cuts[k + 1] + 1] for k in range(num_subbranches)]
 
 
 def _split_into_branches(
